@@ -200,7 +200,7 @@ def apply_mutator(obj, s, st_, ctx):
             obj.weights = _wts(count, s["wseed"])
         return obj, m
     if m == "setkv":
-        k = s["k"] % pd
+        k = (s["k"] + s["ints"][5]) % pd          # uniform over the directions of the shape
         rng = (kvs[k][0], kvs[k][-1])
         new = kv_from_ints(degs[k], szs[k], s["ints"], rng)
         if pd == 1:
@@ -237,7 +237,7 @@ def apply_mutator(obj, s, st_, ctx):
         obj.sample_size = n
         return obj, m
     if m == "insert":
-        k = s["k"] % pd
+        k = (s["k"] + s["ints"][5]) % pd          # uniform over the directions of the shape
         if szs[k] >= 10:
             return obj, None
         pick = pick_insert(degs[k], kvs[k], szs[k], s["ins"], others=[o for j, o in enumerate(kvs) if j != k])
@@ -270,7 +270,7 @@ def apply_mutator(obj, s, st_, ctx):
             obj.remove_knot(u, num=1)
         return obj, m
     if m == "refine":
-        k = s["k"] % pd
+        k = (s["k"] + s["ints"][5]) % pd          # uniform over the directions of the shape
         if szs[k] > 5 or (pd == 3 and count > 60):
             return obj, None
         dens = [0] * pd
@@ -542,7 +542,7 @@ def check_container(case, ctx):
 
 
 SUBCHECKS = [
-    SubCheck("object", _obj_cases, check_object, quick=300, thorough=1500, shards_quick=4,
+    SubCheck("object", _obj_cases, check_object, quick=450, thorough=1500, shards_quick=4,
              rule="non-trivial = history where some view was read, then a mutator was applied, then the same view was read again "
                   "(read-mutate-read); (mutator, view) pairs are labelled"),
     SubCheck("container", _cont_cases, check_container, quick=200, thorough=1000, shards_quick=2,
